@@ -433,3 +433,7 @@ CELLS.append(Cell("C03/grading-multi-inverted", grading_case(), check_grading, 6
                   "non-trivial: >= 2 sections, one graded"))
 CELLS.append(Cell("C03/length-ratio", st.fixed_dictionaries({"length_ratio": _lr, "L": _length, "count": st.integers(1, 20)}),
                   check_length_ratio, 300, 5000, "length_ratio on both sides of 0 and 1: accepted iff in (0, 1]"))
+
+# thorough tier: coverage-guided campaigns (atheris / libFuzzer driving the same strategies and oracles), so that
+# branch coverage of grading/relations.py steers generation towards the |r - 1| <= TOL and exact-integer switches
+FUZZ_CELLS = [(c.id, 30000) for c in CELLS if c.id.startswith(("C03/free/", "C03/consistent/"))] + [("C03/invert", 30000)]
